@@ -6,7 +6,7 @@ module (backupdb.os / backupdb.time / backupdb.random) so that file attributes, 
 "should I re-check" coin are driven by the check.
 
 Three families of histories are explored by level-synchronous BFS (vt.lib_bfs), all histories up to
-depth 4 (quick) / 6 (thorough; 5 for the mixed family):
+depth 5 (quick; 4 for dirs and mixed) / 6 (thorough; 5 for dirs):
   files   2 paths whose (size, mtime, ctime) each take 2 values (os.stat answers from the model).
           ops: flip one attribute of one path (6); swap = rename a<->b (1);
           check_file(path, use_timestamps in {T,F}) followed by one of {nothing, did_upload(cap1),
@@ -43,7 +43,7 @@ from allmydata.scripts import backupdb
 
 LEVEL = "model_checking"
 ASSUMPTIONS = [
-    "2 local paths, each of size/mtime/ctime from 2 values, 2 file caps, 2 dir caps, 7 directory contents; histories up to depth 4 (quick) / 6 (thorough); the code has no value-dependent branch besides equality tests and the age thresholds (by inspection)",
+    "2 local paths, each of size/mtime/ctime from 2 values, 2 file caps, 2 dir caps, 7 directory contents; histories up to depth 5/4 (quick) / 6/5 (thorough); the code has no value-dependent branch besides equality tests and the age thresholds (by inspection)",
     "os.stat / time.time / random.random are the module-level names of allmydata.scripts.backupdb rebound by the check; random.random returns a per-root constant (quick 0.0; thorough 0.0 and 0.99)",
     "files and directories are explored separately to full depth and together over a reduced menu (the two share only the connection, the clock and the coin)",
     "sibling transitions re-open a byte-identical copy of the parent's database (a new backup run); the first child of each state runs its whole history on one connection",
@@ -391,12 +391,12 @@ def run_history(hist):
 
 def _replay(hist):
     out = run_history(hist)
-    digest = hashlib.blake2b(repr(out["canon"]).encode("utf-8", "backslashreplace"), digest_size=16).digest()
+    digest = hashlib.blake2b(repr((hist[0]["name"], out["canon"])).encode("utf-8", "backslashreplace"), digest_size=16).digest()
     viols = list(out["viols"])
     counts = {"mode:" + out["mode"]: 1}
     for o in out["obs"]:
         counts[o] = counts.get(o, 0) + 1
-    return (hist[0]["name"], digest), viols, ([] if viols else menu(hist[0])), counts
+    return digest, viols, ([] if viols else menu(hist[0])), counts
 
 
 def replay(case):
@@ -413,12 +413,12 @@ def replay(case):
 
 def roots(tier, seed):
     q = tier == "quick"
-    rs = [{"name": "files/rnd0", "family": "files", "rnd": 0.0, "depth": 4 if q else 6},
-          {"name": "dirs/rnd0", "family": "dirs", "rnd": 0.0, "depth": 3 if q else 4},
-          {"name": "mixed/rnd0", "family": "mixed", "rnd": 0.0, "depth": 4 if q else 5}]
+    rs = [{"name": "files/rnd0", "family": "files", "rnd": 0.0, "depth": 5 if q else 6},
+          {"name": "dirs/rnd0", "family": "dirs", "rnd": 0.0, "depth": 4 if q else 5},
+          {"name": "mixed/rnd0", "family": "mixed", "rnd": 0.0, "depth": 4 if q else 6}]
     if not q:
-        rs.append({"name": "files/rnd0.99", "family": "files", "rnd": 0.99, "depth": 5})
-        rs.append({"name": "dirs/rnd0.99", "family": "dirs", "rnd": 0.99, "depth": 4})
+        rs.append({"name": "files/rnd0.99", "family": "files", "rnd": 0.99, "depth": 6})
+        rs.append({"name": "dirs/rnd0.99", "family": "dirs", "rnd": 0.99, "depth": 5})
     return rs
 
 
@@ -428,6 +428,7 @@ def run(tier, seed):
     try:
         return _run(tier, seed)
     finally:
+        lib_bfs.shutdown()
         shutil.rmtree(_RUN_DIR, ignore_errors=True)
 
 
@@ -459,3 +460,11 @@ def _run(tier, seed):
                 "compared by a 128-bit digest; every transition runs the real backupdb code on an sqlite file under /dev/shm",
     }
     return res, cov
+
+
+MANIFEST = {
+    "engine": "H",
+    "technique": "BFS over all operation histories of the real backupdb on an sqlite file, with a most-recent-upload reference stepped alongside",
+    "text": "All histories up to depth 5 (thorough 6) of: attribute changes of two local files (os.stat answered by the check), rename, check_file with/without trusted timestamps followed by nothing / did_upload / did_check_healthy, forgotten caps/last_upload rows, clock jumps, and check_directory / did_create over seven directory contents, run on the real BackupDB_v2; states are merged on the full table dump + model. A returned file cap must be the cap of the path's most recent upload recorded with exactly the current size, mtime, ctime and trusted timestamps; a returned dircap must be the one most recently recorded for exactly the same name-to-cap map.",
+    "note": "os/time/random are rebound inside allmydata.scripts.backupdb. Files and directories are explored separately to full depth and jointly over a reduced menu. Sibling transitions re-open a byte copy of the parent database. Missing reuse and should_check deviations are only counted (the statement is an 'only when'). Every transition is an implementation run.",
+}
